@@ -597,6 +597,35 @@ func releaseSlotShape() (found, once bool) {
 	return
 }
 
+// round 10: ReadExact / ReadExactZeroCopy test the processor's context inside their read loop (every iteration)
+func readLoopShape() (found, perIter bool) {
+	fset := token.NewFileSet()
+	f, err := parser.ParseFile(fset, filepath.Join(repoRoot(), "internal/stream/stream_processor_read.go"), nil, 0)
+	if err != nil {
+		return
+	}
+	n, inside := 0, 0
+	for _, name := range []string{"ReadExact", "ReadExactZeroCopy"} {
+		fd := findMethod(f, "StreamProcessor", name)
+		if fd == nil {
+			return false, false
+		}
+		n++
+		ast.Inspect(fd.Body, func(m ast.Node) bool {
+			fs, ok := m.(*ast.ForStmt)
+			if !ok {
+				return true
+			}
+			body := strings.ReplaceAll(nodeText(fset, fs.Body), " ", "")
+			if strings.Contains(body, ".Read(") && strings.Contains(body, "Ctx().Done()") {
+				inside++
+			}
+			return false
+		})
+	}
+	return n == 2, inside == 2
+}
+
 func coqBool(b bool) string {
 	if b {
 		return "true"
@@ -673,6 +702,9 @@ func gen() {
 	rsf, rso := releaseSlotShape()
 	fmt.Println("(* handleConnection's releaseSlot goes through a sync.Once *)")
 	fmt.Printf("Definition ReleaseSlotShapeFound : bool := %s.\nDefinition ReleaseSlotOnce : bool := %s.\n", coqBool(rsf), coqBool(rso))
+	rlf, rlp := readLoopShape()
+	fmt.Println("(* StreamProcessor.ReadExact / ReadExactZeroCopy test the context on every iteration of their read loop *)")
+	fmt.Printf("Definition ReadLoopShapeFound : bool := %s.\nDefinition ReadLoopChecksContextPerIteration : bool := %s.\n", coqBool(rlf), coqBool(rlp))
 	fmt.Printf("Definition BatchUpdateThreshold : N := %d%%N.\n", int64(constants.BatchUpdateThreshold))
 }
 
